@@ -89,7 +89,7 @@ type revdeps struct {
 }
 
 // newRevdeps creates a new reverse dependency searcher. revdeps is non-reusable.
-func newRevdeps(graph *core.BuildGraph, hidden, followSubincludes, includeSubrepos bool, maxDepth int) *revdeps {
+func newRevdeps(graph *core.BuildGraph, hidden, followSubincludes, includeSubrepos, includeDeclared bool, maxDepth int) *revdeps {
 	// Initialise a map of labels to the packages that subinclude them upfront so we can include those targets as
 	// dependencies efficiently later
 	subincludes := make(map[core.BuildLabel][]*core.Package)
@@ -102,7 +102,7 @@ func newRevdeps(graph *core.BuildGraph, hidden, followSubincludes, includeSubrep
 	}
 
 	return &revdeps{
-		revdeps:           buildRevdeps(graph, includeSubrepos),
+		revdeps:           buildRevdeps(graph, includeSubrepos, includeDeclared),
 		subincludes:       subincludes,
 		followSubincludes: followSubincludes,
 		os: &openSet{
@@ -115,7 +115,9 @@ func newRevdeps(graph *core.BuildGraph, hidden, followSubincludes, includeSubrep
 }
 
 // buildRevdeps builds the reverse dependency map from a build graph.
-func buildRevdeps(graph *core.BuildGraph, includeSubrepos bool) map[core.BuildLabel][]*core.BuildTarget {
+// Dependencies are followed to whatever they provide for the dependent; if includeDeclared is true the dependent
+// also counts as a reverse dependency of the target it named, since what that provides is part of its definition.
+func buildRevdeps(graph *core.BuildGraph, includeSubrepos, includeDeclared bool) map[core.BuildLabel][]*core.BuildTarget {
 	targets := graph.AllTargets()
 	revdeps := make(map[core.BuildLabel][]*core.BuildTarget, len(targets))
 	for _, t := range targets {
@@ -123,8 +125,12 @@ func buildRevdeps(graph *core.BuildGraph, includeSubrepos bool) map[core.BuildLa
 			if t2 := graph.Target(d); t2 == nil {
 				revdeps[d] = append(revdeps[d], t2)
 			} else {
-				for _, p := range t2.ProvideFor(t) {
+				provided := t2.ProvideFor(t)
+				for _, p := range provided {
 					revdeps[p] = append(revdeps[p], t)
+				}
+				if includeDeclared && (len(provided) != 1 || provided[0] != d) {
+					revdeps[d] = append(revdeps[d], t)
 				}
 			}
 		}
@@ -140,7 +146,13 @@ func buildRevdeps(graph *core.BuildGraph, includeSubrepos bool) map[core.BuildLa
 
 // FindRevdeps will return a set of build targets that are reverse dependencies of the provided labels.
 func FindRevdeps(state *core.BuildState, targets core.BuildLabels, hidden, followSubincludes, includeSubrepos bool, depth int) map[*core.BuildTarget]struct{} {
-	r := newRevdeps(state.Graph, hidden, followSubincludes, includeSubrepos, depth)
+	return findRevdeps(state, targets, hidden, followSubincludes, includeSubrepos, false, depth)
+}
+
+// findRevdeps is the implementation of FindRevdeps. If includeDeclared is true, a target that names a dependency
+// but is given something else by it (via require / provide) is still treated as a reverse dependency of the named one.
+func findRevdeps(state *core.BuildState, targets core.BuildLabels, hidden, followSubincludes, includeSubrepos, includeDeclared bool, depth int) map[*core.BuildTarget]struct{} {
+	r := newRevdeps(state.Graph, hidden, followSubincludes, includeSubrepos, includeDeclared, depth)
 	// Initialise the open set with the original targets
 	for _, label := range targets {
 		target := state.Graph.TargetOrDie(label)
